@@ -49,7 +49,7 @@ CONFIG = {
                  'init:isolated_state_rejected', 'init:S0_outside',
                  'init:labels_for_nonstate', 'sub:rejected_non_total',
                  'sub:accepted_proper', 'invariant:during_modelcheck',
-                 'deep:big', 'deep:small'],
+                 'deep:big', 'deep:small', 'deep:edit_between_copies'],
     'rule': ('cases = constructor argument combinations (S, S0, R, L) and '
              'subsets V; enumerated: all 1+2+16+512 relations on <=3 states '
              '(total or not) x {S omitted, S = nodes, S with an extra '
@@ -550,6 +550,28 @@ def deep_copies(ctx, r):
                 V = set(rr.sample(st, rr.randint(1, len(st))))
             if not big:
                 state_independence(C2)
+                # the structure changes (new transitions between existing
+                # states, relabelling) between copies: every later copy is
+                # judged against the structure as it then is
+                LOG.sig['deep:edit_between_copies'] += 1
+                K.transitions()
+                K.clone()
+                sts2 = list(K.states())
+                for _ in range(3):
+                    a, b = rr.choice(sts2), rr.choice(sts2)
+                    if b not in K.next(a):
+                        K.add_edge(a, b)
+                    K.labels(rr.choice(sts2)).add('edited')
+                    K.transitions()
+                    Cn = K.clone()
+                    Cn.clone()
+                    try:
+                        K.get_substructure(set(sts2))
+                        Cn.add_edge(sts2[0], sts2[-1]) if sts2[-1] not in \
+                            Cn.next(sts2[0]) else None
+                        Cn.clone()
+                    except RuntimeError:
+                        pass
         except RuntimeError:
             pass
 
